@@ -209,3 +209,30 @@ fn wallet_file_decoder_total() {
         }
     }
 }
+
+/// C09 (snapshot record): a balance snapshot written out as text and read back describes the same outputs — owner,
+/// coordinates, amount AND type, hence the same ledger key (what Wallet::update_from_balance_snapshot files them under).
+/// Bounded: string formatting and parsing are outside the verifier's reach
+#[test]
+fn balance_snapshot_record_keeps_the_output_it_describes() {
+    use crate::core::util::balance_snapshot::BalanceSnapshot;
+    use crate::core::consensus::slip::SlipType;
+    use num_traits::FromPrimitive;
+    let mut rng = Rng::from_env();
+    for code in 0..10u8 {
+        let slip_type = match SlipType::from_u8(code) { Some(t) => t, None => continue };
+        if matches!(slip_type, SlipType::Bound) { continue; }   // (Blockchain::get_balance_snapshot leaves Bound slips out)
+        let mut s = Slip::default();
+        s.public_key = crate::core::util::crypto::generate_keys().0; s.block_id = 1 + rng.below(1000); s.tx_ordinal = rng.below(50); s.slip_index = rng.below(5) as u8; s.amount = 1 + rng.below(1_000_000);
+        s.slip_type = slip_type;
+        s.generate_utxoset_key();
+        let snapshot = BalanceSnapshot { latest_block_id: 7, latest_block_hash: [3; 32], timestamp: 1_700_000_000_000, slips: vec![s.clone()] };
+        let (file_name, rows) = snapshot.get_data();
+        let back = match BalanceSnapshot::new(file_name, rows.clone()) { Ok(b) => b, Err(e) => witness(format!("a snapshot the node wrote is refused when read back: {}", e)) };
+        let r = &back.slips[0];
+        if r.slip_type != s.slip_type || r.utxoset_key != s.utxoset_key || r.amount != s.amount || r.block_id != s.block_id || r.tx_ordinal != s.tx_ordinal || r.slip_index != s.slip_index || r.public_key != s.public_key {
+            witness(format!("an unspent {:?} output of {} nolan at {}-{}-{} is written to the balance snapshot as {:?} and read back as a {:?} output: its ledger key differs ({}… vs {}…), so a wallet loaded from the snapshot counts the amount but builds inputs the ledger does not know",
+                s.slip_type, s.amount, s.block_id, s.tx_ordinal, s.slip_index, rows[0], r.slip_type, hex::encode(&s.utxoset_key[50..59]), hex::encode(&r.utxoset_key[50..59])));
+        }
+    }
+}
